@@ -5,6 +5,7 @@
 #include "vf/core.hpp"
 #include "vf/items.hpp"
 #include "vf/hll_model.hpp"   // ref_clz64, high_pool
+#include "vf/ref_icon.hpp"
 #include <cpc_sketch.hpp>
 #include <cpc_union.hpp>
 #include <sstream>
@@ -229,6 +230,9 @@ void prop_union(const Case& cs) {
     if (!items.empty()) check_membership(r, items, items.size() > 20000 ? 20000 : 0, 11, when);
     if (!P.empty()) {
       VF_CHECK(r.get_estimate() == compute_icon_estimate(static_cast<uint8_t>(lg_k), static_cast<uint32_t>(P.size())), "merged-estimate", when << ": merged estimate " << r.get_estimate() << " is not icon(lg_k, C)");
+      // ... and that function is the ICON estimator: the cardinality at which the expected number of coupons equals C (independent reference)
+      const double ref = vf::ref_icon(lg_k, static_cast<double>(P.size()));
+      VF_CHECK(std::fabs(r.get_estimate() - ref) <= vf::ref_icon_tolerance(ref), "merged-estimate-vs-reference", when << ": merged estimate " << r.get_estimate() << " for C = " << P.size() << " at lg_k " << lg_k << ", reference " << ref << " (tolerance " << vf::ref_icon_tolerance(ref) << ")");
     }
     check_bounds(r, when);
     return r;
